@@ -1,6 +1,7 @@
 package harness
 
 import (
+	"bufio"
 	"bytes"
 	"errors"
 	"fmt"
@@ -172,6 +173,27 @@ func c12Prop(st *CaseStats, fam int) func(t *rapid.T) {
 			inner++
 			if err == nil {
 				t.Fatalf("%s:\n  Merger.WriteTo reported success (n=%d) although one Write call of the writer failed at byte %d of %d", desc, n, k, len(good))
+			}
+		}
+		// --- the destination is the caller's own *bufio.Writer (smaller / larger than the merge buffer) ---
+		for _, ownSize := range []int{16, 4096, 1 << 16} {
+			var dst bytes.Buffer
+			own := bufio.NewWriterSize(&dst, ownSize)
+			var n int64
+			err := safely("Merger.WriteTo(bufio destination)", func() error {
+				var e error
+				n, e = ice.Merge(segs, drops, bufSize).WriteTo(own, nil)
+				return e
+			})
+			inner++
+			if err != nil {
+				t.Fatalf("%s:\n  merge into a healthy bufio.Writer(%d): %v", desc, ownSize, err)
+			}
+			if err := own.Flush(); err != nil {
+				t.Fatalf("%s: %v", desc, err)
+			}
+			if n != int64(len(good)) || !bytes.Equal(dst.Bytes(), good) {
+				t.Fatalf("%s:\n  merge into the caller's bufio.Writer(%d) reported success (n=%d) but after the owner's Flush the destination holds %d of %d bytes", desc, ownSize, n, dst.Len(), len(good))
 			}
 		}
 		// --- close channel closed at every point ---
